@@ -100,6 +100,11 @@ func DialContext(ctx context.Context, addr, mycall, password string) (net.Conn, 
 		return nil, err
 	}
 
+	// The context bounds the login as well: once it is done, expire the connection's deadline
+	// so that a read or write blocked on a silent server returns.
+	stop := context.AfterFunc(ctx, func() { conn.SetDeadline(time.Now()) })
+	defer stop()
+
 	// Log in to telnet server
 	reader := bufio.NewReader(conn)
 L:
@@ -116,6 +121,12 @@ L:
 			fmt.Fprintf(conn, "%s\r", password)
 			break L
 		}
+	}
+
+	if !stop() {
+		// The context was done before the login completed.
+		conn.Close()
+		return nil, fmt.Errorf("Error while logging in: %w", ctx.Err())
 	}
 
 	return &Conn{bufferedConn{conn, reader}, CMSTargetCall}, nil
